@@ -22,6 +22,10 @@ pub struct IgFile {
 	/// applies globally (applies_in: None) instead
 	pub global: bool,
 	pub lines: Vec<String>,
+	/// how the directory the file applies in is spelled in IgnoreFile::applies_in: 0 plain, 1 with a "."
+	/// component, 2 with a "name/.." detour, 3 with a trailing separator (all name the same directory)
+	#[serde(default)]
+	pub spelling: u8,
 }
 
 #[derive(Clone, Debug, Serialize, Deserialize)]
@@ -78,6 +82,20 @@ fn materialise(c: &C03Case) -> Built {
 			std::fs::create_dir_all(&d).unwrap();
 			(d.join(format!(".ignore{i}")), Some(d))
 		};
+		// the model keeps the plain directory; the implementation is handed the generated spelling of it
+		let spelled = applies_in.as_ref().map(|d| {
+			let last = d.file_name().map(|n| n.to_os_string());
+			match (f.spelling % 4, last) {
+				(1, Some(n)) => d.parent().unwrap().join(".").join(n),
+				(2, Some(n)) => d.join("..").join(n),
+				(3, _) => {
+					let mut s = d.as_os_str().to_owned();
+					s.push("/");
+					PathBuf::from(s)
+				}
+				_ => d.clone(),
+			}
+		});
 		std::fs::write(&path, f.lines.join("\n") + "\n").unwrap();
 		mfiles.push(MFile {
 			applies_in: applies_in.clone(),
@@ -85,7 +103,7 @@ fn materialise(c: &C03Case) -> Built {
 		});
 		files.push(IgnoreFile {
 			path,
-			applies_in,
+			applies_in: spelled,
 			applies_to: None,
 		});
 	}
@@ -310,7 +328,8 @@ pub fn run(c: &C03Case) -> Outcome {
 	// ---- (i) removing a file that applies in D never changes a verdict outside D
 	{
 		let k = idx(c.remove, b.files.len());
-		if let Some(d) = &b.files[k].applies_in {
+		// (the plain directory, not the spelling handed to the implementation)
+		if let Some(d) = &b.mfiles[k].applies_in {
 			let rest: Vec<IgnoreFile> = b.files.iter().enumerate().filter(|(i, _)| *i != k).map(|(_, f)| f.clone()).collect();
 			let fr = build_new(&rest).unwrap();
 			let vr = verdicts(&fr, &origin, &c.probes);
@@ -336,7 +355,7 @@ fn strategy() -> BoxedStrategy<C03Case> {
 	patgen::alpha()
 		.prop_flat_map(|al| {
 			let dir = proptest::collection::vec(al.dir(), 0..3);
-			let file = (dir, proptest::bool::weighted(0.12), proptest::collection::vec(al.pattern(0.3), 1..5)).prop_map(|(dir, global, lines)| IgFile { dir, global, lines });
+			let file = (dir, proptest::bool::weighted(0.12), proptest::collection::vec(al.pattern(0.3), 1..5), prop_oneof![5 => Just(0u8), 1 => Just(1u8), 1 => Just(2u8), 1 => Just(3u8)]).prop_map(|(dir, global, lines, spelling)| IgFile { dir, global, lines, spelling });
 			let probe = (al.rel_path(4), any::<bool>(), proptest::bool::weighted(0.15)).prop_map(|(comps, is_dir, outside)| Probe { comps, is_dir, outside });
 			(
 				proptest::collection::vec(file, 1..6),
@@ -357,7 +376,7 @@ pub fn check(e: &Engine) {
 		"scoping",
 		LegOpts::det(
 			e.tier.pick(4_000, 80_000),
-			"1-5 ignore files (origin, nested dirs drawn from a 3-name alphabet that half of the time contains the pair test/tests, global) of 1-4 lines from the grammar with 30% negations; 6-23 probes (files and dirs, 15% outside the origin: half of those in a sibling of the origin whose name has the origin's name as a string prefix, half far away); independent nearest-first evaluator (+ git top-down evaluator to delimit the agreed region) and four metamorphic relations; non-trivial = a probe in a prefix-sibling directory of an ignore file's directory, >=2 files on a probe's chain, or a matching negation",
+			"1-5 ignore files (whose applies_in directory is spelled plainly, with a '.' component, with a 'name/..' detour or with a trailing separator; origin, nested dirs drawn from a 3-name alphabet that half of the time contains the pair test/tests, global) of 1-4 lines from the grammar with 30% negations; 6-23 probes (files and dirs, 15% outside the origin: half of those in a sibling of the origin whose name has the origin's name as a string prefix, half far away); independent nearest-first evaluator (+ git top-down evaluator to delimit the agreed region) and four metamorphic relations; non-trivial = a probe in a prefix-sibling directory of an ignore file's directory, >=2 files on a probe's chain, or a matching negation",
 		),
 		&strategy,
 		&run,
